@@ -9,6 +9,7 @@ use crate::torrent::gen_sim_torrent;
 use crate::util::{hash64, panic_site, Ctx, Report, Rng};
 use rdest::verif::{Snapshot, Status};
 use serde_json::{json, Value};
+use std::collections::HashMap;
 use std::rc::Rc;
 
 pub struct Inv {
@@ -301,14 +302,17 @@ pub fn gen_scenario(r: &mut Rng, seed: u64) -> Scenario {
     let npeers = r.range(2, 5) as usize;
     let mut peers = vec![];
     let mut pdesc = vec![];
+    // one scenario in six: two addresses present (and are announced with) the same peer id
+    let shared_id = r.chance(1, 6);
     for k in 0..npeers {
         let incoming = r.chance(1, 5);
-        let (c, persona) = gen_hostile_seeder(r, peer_id(k), n, incoming);
+        let pid = if shared_id && k == 1 { peer_id(0) } else { peer_id(k) };
+        let (c, persona) = gen_hostile_seeder(r, pid, n, incoming);
         pdesc.push(json!({"addr": addr(k), "persona": persona, "incoming": incoming, "choke_plan": format!("{:?}", c.choke_plan), "serve_while_choking": c.serve_while_choking, "disconnect": format!("{:?}", c.disc), "unchoke_after_ms": c.unchoke_after_ms, "late_haves": format!("{:?}", c.late_haves)}));
         let c2 = c.clone();
         peers.push(PeerSpec {
             addr: addr(k),
-            id: peer_id(k),
+            id: pid,
             entry: if incoming { Entry::Incoming { at_ms: r.range(0, 3000) } } else { Entry::Dialled { from_announce: 0 } },
             make: Box::new(move |nth| if nth > 3 { None } else { Some(seeder(c2.clone())) }),
             chunk: *r.pick(&[0usize, 0, 1, 5, 1000]),
@@ -316,7 +320,7 @@ pub fn gen_scenario(r: &mut Rng, seed: u64) -> Scenario {
         });
     }
     let failpoints = if r.chance(2, 3) { Some(r.next()) } else { None };
-    let desc = json!({"seed": seed, "piece_length": torrent.piece_len, "pieces": n, "failpoints": failpoints.is_some(), "peers": pdesc});
+    let desc = json!({"seed": seed, "piece_length": torrent.piece_len, "pieces": n, "failpoints": failpoints.is_some(), "two_addresses_share_a_peer_id": shared_id, "peers": pdesc});
     Scenario { cfg: SimCfg { torrent, peers, tracker: vec![], failpoints, max_virtual_ms: 90_000, stop_on_extract: true, linger_ms: 100, disk_on: disk_never, seed, pre: None, tracker_fn: None, driver: None }, desc }
 }
 
@@ -335,10 +339,11 @@ pub fn run(ctx: &Ctx) -> Report {
     for k in 0..n {
         let seed = ctx.scenario_seed(r.next());
         let mut sr = Rng::new(seed);
-        let sc = gen_scenario(&mut sr, seed);
-        let desc = sc.desc.clone();
+        // one in ten: the end-game family of C02 (two seeders, possibly finishing the same piece in
+        // the same instant, one of them the sole holder of a piece it announces later)
+        let (cfg, desc) = if sr.chance(1, 10) { let x = crate::checks::c02::gen_endgame_exclusive(&mut sr, seed); let mut c = x.cfg; c.max_virtual_ms = 120_000; (c, x.desc) } else { let x = gen_scenario(&mut sr, seed); (x.cfg, x.desc) };
         rep.evaluations += 1;
-        let o = run_sim(sc.cfg, &ctx.scratch, 120);
+        let o = run_sim(cfg, &ctx.scratch, 120);
         if o.watchdog { rep.inconclusive(format!("watchdog (scenario seed {})", seed)); continue; }
         let nm = o.mgr().count() as u64;
         rep.count("manager_events_checked", nm);
@@ -361,6 +366,22 @@ pub fn run(ctx: &Ctx) -> Report {
         }
         if o.session_panicked || !o.session_alive_at_end {
             rep.violation("C12:manager-dead", format!("manager loop ended/does not answer; panics: {:?}", o.panics), json!({"scenario": desc, "trace": witness_trace(&o, u64::MAX)}));
+            continue;
+        }
+        // I5: an assignment does not stay on a piece that is owned meanwhile (the task is told to
+        // cancel and the peer is re-assigned or released; 5 s of virtual time are ample for that)
+        let mut stuck: HashMap<String, (usize, u64, u64)> = HashMap::new();
+        let mut stuck_found: Option<(String, usize, u64, u64)> = None;
+        for (e, _, snap) in o.mgr() {
+            for p in &snap.peers {
+                match p.piece_index { Some(i) if snap.statuses[i] == Status::Have => { stuck.entry(p.addr.clone()).and_modify(|x| if x.0 != i { *x = (i, e.ms, e.seq) }).or_insert((i, e.ms, e.seq)); } _ => { stuck.remove(&p.addr); } }
+            }
+            stuck.retain(|a, _| snap.peers.iter().any(|p| &p.addr == a));
+        }
+        for (a, (i, ms, seq)) in &stuck { if o.end_ms > ms + 5_000 { stuck_found = Some((a.clone(), *i, *ms, *seq)); } }
+        rep.count("final_assignments_examined", o.final_snapshot.as_ref().map(|s| s.peers.iter().filter(|p| p.piece_index.is_some()).count() as u64).unwrap_or(0));
+        if let Some((a, i, ms, seq)) = stuck_found {
+            rep.violation("C12:assignment-stuck-on-owned-piece", format!("{} has been assigned piece {} since t={} ms although that piece is owned; nothing changed in the remaining {} ms: the peer is never asked for anything else", a, i, ms, o.end_ms - ms), json!({"scenario": desc, "trace": witness_trace(&o, seq + 40)}));
             continue;
         }
         match check_invariants(&o) {
